@@ -68,6 +68,25 @@ def ob_continuous_concrete():
     return f
 
 
+def ob_continuous_low_precision():
+    """numpy scalars of lower precision (float32 / float16) beyond a bound that is not representable in that precision:
+    np.clip works in the scalar's precision and returns the rounded bound - the result must still be a member, and
+    correcting it again must not move it"""
+    def f():
+        for lo, hi in ((0.0, 0.1), (-0.3, 1 / 3), (0.1, 0.7)):
+            v = M.ContinuousVariable(name="c", lower_bound=lo, upper_bound=hi)
+            for x in (np.float32(5.0), np.float32(-5.0), np.float16(5.0), np.float16(-5.0), np.float32(0.05), np.float32(hi),
+                      np.float32(lo)):
+                y = v.correct(x)
+                if type(y) is not float or not (lo <= y <= hi):
+                    return Failure("continuous:low-precision-input-not-mapped-into-the-domain", x=repr(x), y=repr(y),
+                                   bounds=[lo, hi])
+                if v.correct(y) != y:
+                    return Failure("continuous:not-idempotent-on-low-precision-input", x=repr(x), y=repr(y))
+        return OK
+    return f
+
+
 def ob_discrete(n):
     def f():
         with env(rng_layer()):
@@ -369,7 +388,8 @@ def obligations(tier):
     th = tier == "thorough"
     obs = [Ob("continuous", ob_continuous(), 60), Ob("continuous_concrete", ob_continuous_concrete(), 30),
            Ob("discrete_concrete", ob_discrete_concrete(), 30), Ob("binary_ctor", ob_binary_ctor(), 60),
-           Ob("multi_concrete", ob_multi_concrete(), 30)]
+           Ob("multi_concrete", ob_multi_concrete(), 30),
+           Ob("continuous_low_precision", ob_continuous_low_precision(), 30)]
     for n in range(1, (6 if th else 4) + 1):
         obs.append(Ob(f"discrete[n={n}]", ob_discrete(n), 120))
     for n in range(1, (5 if th else 4) + 1):
